@@ -634,3 +634,37 @@ PROPS["C18"] = {
         "technique": "Lean 4 two-level model (byte-exact index level + plain trees) with refinement checked at run time; Lean theorems for the tree level, the byte format and failed-operation atomicity; differential correspondence on operation histories",
         "trusted": ["open statements are validated only by the run-time checks of the driver on the explored histories (tags ABSFAIL / NEWFAIL)"],
     }
+
+# ---- C07/C08/C09: path theorems (merged from the prover) ----
+PROPS["C07"]["theorems"] = ["ChiaModel.C07.legacy_accepts_native_accepts", "ChiaModel.C07.legacy_accepts_native_accepts_size",
+    "ChiaModel.C07.native_accepts_legacy", "ChiaModel.C07.native_rejects_legacy_rejects",
+    "ChiaModel.C07.simple_generator_rules", "ChiaModel.C07.legacy_cost", "ChiaModel.C04.limit_exact",
+    "ChiaModel.C04.native_limit_exact", "ChiaModel.C04.legacy_limit_exact", "ChiaModel.C02.accepted_invariants",
+    "ChiaModel.C02.native_invariants", "ChiaModel.C02.legacy_invariants"]
+PROPS["C07"]["open"] = ["the cost clause under INTERNED_GENERATOR is FALSE for the code (recorded finding): legacy_accepts_native_accepts_size states exactly which size inequality it needs; RomSpec / RomCostDominates are hypotheses about the CLVM ROM and clvmr cost accounting (external), monitored on every case (rom=ok, prop=ok)",
+                        "back-reference deserialisation enters through the decoded program on the case line (C17 proves the deserialiser model's round trip separately)"]
+PROPS["C07"]["level"] = "proof"
+PROPS["C07"]["level_text"] = ("Proof, conditional on two named hypotheses about the external interpreter. For every generator input, flags without INTERNED_GENERATOR, reference count and cost limit: "
+    "(legacy_accepts_native_accepts) if the legacy path model accepts with bundle bl then the native path model accepts with a bundle bn that has the same spends (all fields except the execution-cost bookkeeping), the same fee, locks, unsafe signatures, amounts, condition cost and signature verdict, and bn.cost <= bl.cost; "
+    "(native_accepts_legacy) if the native path accepts then the legacy path accepts with the same conditions, or fails with cost-exceeded, or the ROM run itself failed (interpreter limits) - the permitted asymmetry; "
+    "(native_rejects_legacy_rejects) if the native path rejects, so does the legacy path. "
+    "Hypotheses: RomSpec (the ROM program computes romModel, a Lean transcription of rom_bootstrap_generator - compared with a real clvmr run of the ROM on every case) and RomCostDominates (the ROM run costs at least generator + puzzle runs - compared on every case). "
+    "Both path models are tied to run_block_generator / run_block_generator2 by correspondence (verdict, full summary, cost) and the property relation is also evaluated on the implementation's own two results on every case. Under INTERNED_GENERATOR the cost clause is false for the real code (known finding); the _size variant of the theorem isolates the needed inequality.")
+PROPS["C07"]["technique"] = "Lean 4 theorems relating the two executable path models for all programs/flags/limits (interpreter results universally quantified, ROM behaviour as a named monitored hypothesis) + differential correspondence + property predicate on implementation results"
+
+PROPS["C08"]["theorems"] = ["ChiaModel.C08.bundle_path_eq_block_path_partial", "ChiaModel.C08.bundle_path_eq_block_path_reversed_partial",
+    "ChiaModel.C08.generator_length", "ChiaModel.C08.base_cost_offset", "ChiaModel.C11.clvmBytesLen_ok", "ChiaModel.C04.limit_exact",
+    "ChiaModel.C04.runSpendbundle_limit_exact", "ChiaModel.C02.spendbundle_invariants"]
+PROPS["C08"]["open"] = ["bundle_path_eq_block_path without _partial: run_spendbundle on css versus the generator build_generator(css) (which lists the spends in REVERSE order) needs the spend-permutation theorem of C06 (open); proved for equal order (and for the reversed bundle against build_generator css)",
+                        "INTERNED_GENERATOR mode and the back-reference-compressed / block-builder serialisations are covered by correspondence only (decoder = clvmr, external)",
+                        "top-level statement is accept/accept; equality of error kinds is proved at loop level only (LIMIT_SPENDS is checked up front by the bundle path, inside the loop by the native path)"]
+PROPS["C08"]["level_text"] = ("Partial proof + correspondence. Proved for all bundles of well-formed coin spends with matching declared puzzle hashes, without INTERNED_GENERATOR: run_spendbundle(css, L) accepts (and its signature check passes) iff run_block_generator2 accepts the quoted generator that lists the same spends in the same order under L + 20 + 2*cost_per_byte; the two summaries agree up to the mempool visitor's eligibility bits (spends, fee, locks, amounts, condition cost equal), native cost = bundle cost + 20 + 2*cost_per_byte and execution cost differs by the quote's 20; the predicted generator length equals the serialised length (generator_length, with clvm_bytes_len from the translator). "
+    "The statement for build_generator's own (reversed) order is reduced to the open spend-permutation theorem, hence level other. All serialisation modes and both builders are compared on every generated bundle by correspondence (byte-exact generators, both block paths).")
+PROPS["C08"]["technique"] = "Lean 4 theorems relating the mempool-path and block-path models (partial: equal spend order) + translator for clvm_bytes_len + differential correspondence incl. byte-exact generator serialisation"
+
+PROPS["C09"]["theorems"] = ["ChiaModel.C09.additions_removals_spec", "ChiaModel.C09.removals_spec", "ChiaModel.C09.additions_spec",
+    "ChiaModel.C09.lookup_spec", "ChiaModel.C02.native_invariants"]
+PROPS["C09"]["open"] = ["C09_coinspends_rebuild (get_coinspends_for_trusted_block rebuilds a generator with the same conditions) and C09_bundle_additions (SpendBundle::additions) are checked by correspondence on every accepted block / bundle, not proved"]
+PROPS["C09"]["level_text"] = ("Partial proof + correspondence. Proved for every block the native-path model accepts (any flags, limit <= the block maximum, generator output made of byte strings): additions_and_removals' model returns exactly the removals (coin id, parent, puzzle hash, amount) of the validated spends in order (removals_spec) and exactly the created coins with the same hints in spend and condition order (additions_spec - the scanner's hint rule is proved equal to parse_args'), and get_puzzle_and_solution_for_coin's model finds every removed coin and returns a puzzle whose tree hash is the coin's puzzle hash (lookup_spec). "
+    "The coin-spend recovery and SpendBundle::additions clauses are compared with the prescription on every case but not proved, hence level other. Two genuine defects found by this check were repaired (known_findings.txt).")
+PROPS["C09"]["technique"] = "Lean 4 theorems relating the trusted-helper scanner models to the full-validation model + differential correspondence against the validated conditions"
